@@ -263,11 +263,12 @@ class DM:
 
         self.Nintermediate = warped.shape
 
-        if warped.shape[0] < self.Nout[0]:
-            # need to pad
-            warped = pad2d(warped, out_shape=self.Nout)
-        elif warped.shape[0] > self.Nout[1]:
-            warped = crop_center(warped, out_shape=self.Nout)
+        # Nout is (rows, cols); each axis is padded or cropped on its own
+        big = tuple(max(s, n) for s, n in zip(warped.shape, self.Nout))
+        if big != warped.shape:
+            warped = pad2d(warped, out_shape=big)
+        if big != tuple(self.Nout):
+            warped = crop_center(warped, out_shape=tuple(self.Nout))
 
         return warped
 
@@ -308,12 +309,13 @@ class DM:
 
         """
         """Gradient backpropagation for self.render."""
-        if protograd.shape[0] > self.Nintermediate[0]:
-            # forward padded, we need to crop
-            protograd = crop_center(protograd, out_shape=self.Nintermediate)
-        elif protograd.shape[0] < self.Nintermediate[0]:
-            # forward cropped, we need to pad
-            protograd = pad2d(protograd, out_shape=self.Nintermediate)
+        # adjoint of the per-axis pad / crop of render(): where the forward
+        # cropped we pad, where it padded we crop
+        big = tuple(max(s, n) for s, n in zip(protograd.shape, self.Nintermediate))
+        if big != protograd.shape:
+            protograd = pad2d(protograd, out_shape=big)
+        if big != tuple(self.Nintermediate):
+            protograd = crop_center(protograd, out_shape=tuple(self.Nintermediate))
 
         if self.upsample != 1:
             # the adjoint of the resampling, which is not resampling back
